@@ -207,6 +207,15 @@ func (s *Sim) candidates(h uint64) []types.BlockID {
 	for _, kb := range s.blocksByH[h] {
 		out = append(out, kb.id)
 	}
+	// near-twins of the first known block: same block hash, another part-set header (a distinct
+	// block id for every tally, and for evidence, although the block hash is the same)
+	if kbs := s.blocksByH[h]; len(kbs) > 0 && s.cfg.IDTwins {
+		a := kbs[0].id
+		a.PartsHeader.Hash[31] ^= 1
+		b := kbs[0].id
+		b.PartsHeader.Total++
+		out = append(out, a, b)
+	}
 	return out
 }
 
@@ -215,6 +224,9 @@ func (s *Sim) byzAct(b *Byz, target *kit.Node, rs *cstypes.RoundState) {
 		return
 	}
 	h, r := rs.Height, rs.Round
+	if until, ok := s.baitSilent[h]; ok && r > until && b.Strat == "lock-bait" {
+		return // late-polka plan: the helper has fallen silent for the rest of the height
+	}
 	// 1. proposals, when the target believes it is b's turn
 	if rs.Proposal == nil && rs.Step <= cstypes.RoundStepPropose && rs.Validators.GetProposer().Address == b.Addr {
 		s.byzPropose(b, target, rs, false)
@@ -262,6 +274,7 @@ func (s *Sim) byzAct(b *Byz, target *kit.Node, rs *cstypes.RoundState) {
 					for i, c := range cands {
 						if c.Hash == rs.ProposalBlock.Hash() {
 							ch = i
+							break // the genuine id comes before its twins
 						}
 					}
 				}
